@@ -208,6 +208,29 @@ func goXzRead(data []byte, dictCap int, single bool, d time.Duration) *readTrace
 	return t
 }
 
+// goXzReadSrc: as goXzRead, from an arbitrary source (fragmenting readers)
+func goXzReadSrc(src io.Reader, dictCap int, single bool, d time.Duration) *readTrace {
+	t := &readTrace{}
+	ok := withTimeout(d, func() {
+		defer func() {
+			if p := recover(); p != nil {
+				t.Err = "Panic"
+				t.Panic = fmt.Sprint(p)
+			}
+		}()
+		r, err := xz.ReaderConfig{DictCap: dictCap, SingleStream: single}.NewReader(src)
+		if err != nil {
+			t.OpenErr = true
+			t.Err = errClass(err)
+			t.Msg = err.Error()
+			return
+		}
+		readAllGuard(r, t)
+	})
+	t.TimedOut = !ok
+	return t
+}
+
 func goLzma2Read(data []byte, dictCap int, d time.Duration) *readTrace {
 	t := &readTrace{}
 	ok := withTimeout(d, func() {
